@@ -788,11 +788,7 @@ class Dataset(AbstractDataset, dict, OpMixin, GetSetDelAttrMixin):
                [2., 3.]])
         """
         assert isinstance(other, Dataset) or isscalar(other), "can only combine Datasets objects (func={})".format(func.__name__)
-        # align all axes first
-        reindex = get_option("op.reindex")
-        if reindex and hasattr(other, 'axes') and other.axes != self.axes:
-            other.reindex_like(self)
-        # now proceed to operation
+        # proceed to operation (each variable's operation aligns its operands' axes)
         res = self.__class__()
         for k1 in self.keys():
             if hasattr(other, 'keys'):
